@@ -34,7 +34,7 @@ let parse_table (t : string) : (Hap.cid * Charac.charac) list =
         let has c = String.contains perms c in
         (cid_of id, { Charac.format = Fam_charac.fmt_of f; p_read = has 'r'; p_write = has 'w'; p_event = has 'e';
                       cvalue = (match Fam_charac.parse_val v with Charac.VNil -> None | x -> Some x);
-                      minv = Fam_charac.bound_of mn; maxv = Fam_charac.bound_of mx })
+                      minv = Fam_charac.bound_of mn; maxv = Fam_charac.bound_of mx; upd_same = (String.contains perms 'S') })
       | _ -> failwith "bad table row") (split_on ';' t)
 
 (* a JSON scalar as the Go driver writes it in the case line -> gval with the oracle annotations the PUT path needs *)
@@ -213,7 +213,7 @@ let run (toks : string list) : string =
             let ev = L.nth rest (n - 1) in
             let v = String.concat ":" (L.filteri (fun i _ -> i < n - 1) rest) in
             let vv = if v = "-" then None else Some (json_val v) in
-            let e = if ev = "-" then None else Some (ev = "1") in
+            let e = if ev = "-" then None else if ev = "1" then Some (Hap.EvBool true) else if ev = "0" then Some (Hap.EvBool false) else Some Hap.EvOther in
             emit ("P=" ^ (match req c (Hap.ECharsPut [((cid_of id, vv), e)]) with
                 | Hap.RNoContent -> "204:" | Hap.RChars (st, es) -> Printf.sprintf "%d:%s" (int_of_n st) (entries_str es)
                 | Hap.RRefused470 -> "470" | r -> resp_tlv r))
@@ -228,7 +228,7 @@ let run (toks : string list) : string =
             let e = (match ep with
                 | "accessories" -> Hap.EAccessories
                 | "characteristics" -> Hap.ECharsGet ([cid_of "2.9"; cid_of "4.13"], true)
-                | "characteristics-put" -> Hap.ECharsPut [((cid_of "2.9", Some (Charac.VBool true)), Some true)]
+                | "characteristics-put" -> Hap.ECharsPut [((cid_of "2.9", Some (Charac.VBool true)), Some (Hap.EvBool true))]
                 | "pairings" -> Hap.EPairingsAdd (ascii "intruder", keyid "intruder")
                 | "pairings-remove" -> Hap.EPairingsRemove (ascii "c0")
                 | "resource" -> Hap.EResource
